@@ -296,7 +296,7 @@ fn as_chunks<T: kani::Arbitrary, const CAP: usize, const N: usize>() {
     let (sr2, sa2) = s.as_rchunks::<N>();
     assert!(ka2.len() == sa2.len() && (ka2.is_empty() || ka2.as_ptr() == sa2.as_ptr()));
     assert!(same(kr2, sr2));
-    must_reach!(len == CAP && len % N != 0 || N == 1 && len == CAP, "full slice with a remainder");
+    must_reach!(len > N && len % N != 0 || N == 1 && len == CAP, "more than one chunk and a remainder");
     must_reach!(len < N, "shorter than one chunk");
 }
 
